@@ -81,6 +81,23 @@ theorem container_roundtrip (ms : List Message) (rest : Bytes)
     ∃ x, encodeContainer ms = .ok x ∧ decodeContainer (x ++ rest) = .ok (ms, rest) :=
   decodeContainer_encodeContainer ms h hc rest
 
+/-- Corollary: two well-formed message lists never share an encoding, and a container followed by
+other data is cut at exactly one place (`x ++ r₁ = y ++ r₂` forces the same messages and the same
+remainders) — a receiver cannot attribute a message of one container to another. -/
+theorem container_encoding_injective (ms ns : List Message) (x y r₁ r₂ : Bytes)
+    (hm : ∀ m ∈ ms, m.WF ∧ m.body.length ≤ 1048576) (hmc : ms.length < 2 ^ 31)
+    (hn : ∀ m ∈ ns, m.WF ∧ m.body.length ≤ 1048576) (hnc : ns.length < 2 ^ 31)
+    (hx : encodeContainer ms = .ok x) (hy : encodeContainer ns = .ok y) (h : x ++ r₁ = y ++ r₂) :
+    ms = ns ∧ r₁ = r₂ := by
+  obtain ⟨x', hx', dx⟩ := container_roundtrip ms r₁ hm hmc
+  obtain ⟨y', hy', dy⟩ := container_roundtrip ns r₂ hn hnc
+  rw [hx] at hx'; rw [hy] at hy'
+  injection hx' with hx'; injection hy' with hy'
+  subst hx'; subst hy'
+  rw [h, dy] at dx
+  injection dx with dx; injection dx with a b
+  exact ⟨a.symm, b.symm⟩
+
 /-- One message (element of a container). -/
 theorem message_roundtrip (m : Message) (rest : Bytes) (h : m.WF) (hl : m.body.length ≤ 1048576) :
     ∃ x, encodeMessage m = .ok x ∧ decodeMessage (x ++ rest) = .ok (m, rest) :=
